@@ -57,7 +57,7 @@ import Reamber.Props.C20
 
 namespace Reamber.PermInv
 
-open Reamber.Analysis
+open Reamber.Analysis hiding Chart
 
 /-! ## dominant bpm, SV normalisation -/
 
